@@ -260,6 +260,10 @@ def C10(c):
     if exe:
         c.add_suite(run_suite(exe, "ctor", c.seed, c.tier, "C10-ctor"), sig_method)
         c.add_suite(run_suite(exe, "indapi", c.seed, c.tier, "C10-indicators", ["--which", "params"]), sig_method)
+        # indicator validate()/init against the model: boundary / invalid parameter values through the string setters must give
+        # the same Ok / error kind as the Lean model of validate()/init (34 modelled indicators)
+        c.add_suite(run_suite(exe, "ind", c.seed, c.tier, "C10-ind-init"), sig_method,
+                    only=lambda mm: mm.get("class") in ("ind-init", "ind-panic"))
         # accepted instances must not panic however long they run (the same long streams as C07, panics only)
         c.add_suite(run_suite(exe, "indapi", c.seed, c.tier, "C10-long", ["--which", "long"]), sig_method,
                     only=lambda mm: "long_no_panic" in mm.get("sub", "") or "long_no_panic" in mm.get("raw", ""))
@@ -274,7 +278,8 @@ def C10(c):
         trusted=TRUSTED_COMMON + [
             "debug profile (overflow checks, debug assertions) as in the baseline suite, plus a release build of the same sweep: "
             "a wrapped length must show up as a constructor/step disagreement with the model",
-            "indicator init()/validate() are not modelled for C10: every indicator parameter is swept on the real code (all 256 "
+            "indicator init()/validate(): the 34 indicator models carry validate()/init and are compared with the real code on 14 (thorough 60) "
+            "boundary / invalid configurations per indicator (error kind must agree); besides, every indicator parameter is swept on the real code (all 256 "
             "values per PeriodType parameter, all MA kinds x boundary lengths, numeric parameters incl. NaN/inf/0/negative/1e6, "
             "boundary-biased random tuples) and accepted instances are driven with valid candles",
         ],
@@ -529,6 +534,25 @@ def ind_check(c, rule, trusted_extra):
         c.coverage["signals_compared"] = summ.get("lsteps", 0)
         c.coverage["exempt_steps"] = summ.get("exempt", 0)
         c.coverage["modelled_indicators"] = MODELLED
+        # how much was really compared, per indicator: a comparison that is switched off for (almost) a whole case must
+        # not go unnoticed (it did once: the SAR comparison ended at its first step)
+        ist = r.get("istat", {})
+        c.coverage["per_indicator"] = ist
+        no_values = {"PivotReversalStrategy"}
+        no_signals = {"DetrendedPriceOscillator"}
+        thin = []
+        for name in MODELLED:
+            st = ist.get(name)
+            if not st:
+                thin.append(f"{name}: no case replayed")
+                continue
+            if c.prop == "C05" and name not in no_values and st["vals"] * 2 < st["steps"]:
+                thin.append(f"{name}: only {st['vals']} values compared in {st['steps']} steps")
+            if c.prop == "C06" and name not in no_signals and st["sigs"] * 2 < st["steps"]:
+                thin.append(f"{name}: only {st['sigs']} signals compared in {st['steps']} steps")
+        if thin and not r.get("error"):
+            c.violations.append(("machinery:coverage", c.write_replay("coverage", ["# comparisons switched off:"] + ["# " + t for t in thin]),
+                                 "; ".join(thin)))
         if c.prop == "C12":
             r2 = run_suite(exe, "methods", c.seed, c.tier, "C12-methods", ["--methods", "stdev,mad,medad,linvol,tr"])
             c.add_suite(r2, sig_method, only=lambda mm: mm.get("class") == "range")
